@@ -9,3 +9,8 @@ claimed["C13"] = (
  "Decides on every path of the current source the lock discipline C13 rests on: a failed Open/Create closes the descriptor after the lock was taken; openAndLockFile takes a blocking LOCK_EX on the descriptor it opened on every success path (only bypass: the handle's flock option), closes on lock failure and touches nothing before the lock; the default is locked and the module never opts out; only openAndLockFile calls flock; the library never hands out a handle whose descriptor it closed; server-reachable code closes every handle it opens. Necessary structural conditions of C13.",
  "Not decided: lost-update freedom and page-mixture freedom under real schedules (consequences of flock semantics and of this discipline), behaviour of flock across processes/filesystems.",
  "DESIGN.md 5 (C13)")
+claimed["C16"] = (
+ "static return classification and error-discard discipline on SSA, nil-contract fixpoint over the call graph, derives-from checks on command plumbing, must-pass-through Sync",
+ "Decides on every path of the current source: no return of nil inside a region entered only with a non-nil error (swallowed error), no discarded error result outside an enumerated reasoned list, every Execute returns withTextOutWriter(c.TextOut, c.execute) whose result is f's error with finish's error stored into the returned variable, main returns Parse/Execute errors to the exit-code mapping, possibly-nil *TimeSeries values never reach a dereferencing position in command/handler-reachable code, the only explicit panic is unreachable for validated headers, and mutating commands pass a checked Sync before reporting success. Necessary structural conditions of 'no panic and no silent success'.",
+ "Not decided: that each command's effect is complete and correct (value clauses of C08-C11, C18, C20); faults below the os package; panics from slice indexing on hostile data (C15).",
+ "DESIGN.md 5 (C16)")
